@@ -182,7 +182,8 @@ async def _one_round(case, params, make_client_patch):
                 # legacy API: a caller waiting on the transport's future for the same id; whatever it gets
                 # (a result, a timeout, a cancellation at exit) must not disturb the read stream
                 try:
-                    got = await transport.wait_for_response(str(G.idval(reqs[k]["id"])), timeout=reqs[k]["wait"] / vloop.TICKS_PER_S)
+                    got = await transport.wait_for_response(
+                        str(G.idval(reqs[k]["id"])), timeout=None if reqs[k]["wait"] < 0 else reqs[k]["wait"] / vloop.TICKS_PER_S)
                     if isinstance(got, dict):
                         out.append(canon_delivered(got))
                     waiters.append([k, "result"])
@@ -521,7 +522,7 @@ def run_case_socket(case):
 
 # ----------------------------------------------------------------------------- streaming branch
 
-def run_stream(chunks, rid=7):
+def run_stream(chunks, rid=7, fail=False):
     """Drive the streaming branch of `_process_sse_response` (unreachable with an httpx response,
     which always has `.text`): a response object without `.text` whose `aiter_text` yields the
     given chunks.  Returns the messages routed to the read stream, or {"skipped": why} when the
@@ -538,6 +539,9 @@ def run_stream(chunks, rid=7):
         async def aiter_text(self, chunk_size=None):
             for c in self._chunks:
                 yield c
+            if fail:
+                import httpx
+                raise httpx.ReadError("connection lost in the middle of the stream")
 
     async def main():
         T = _transport_module()
